@@ -8,6 +8,11 @@ require (
 	github.com/cloudwego/thriftgo v0.0.0
 )
 
-require github.com/bytedance/gopkg v0.1.4 // indirect
+require (
+	github.com/bytedance/gopkg v0.1.4 // indirect
+	github.com/dlclark/regexp2 v1.11.0 // indirect
+	golang.org/x/text v0.14.0 // indirect
+	gopkg.in/yaml.v3 v3.0.1 // indirect
+)
 
 replace github.com/cloudwego/thriftgo => /repo
